@@ -10,9 +10,6 @@ as a witness (`D15_*`).
 namespace Netpoll.Props.C15
 open Netpoll.Fd
 
-/-- the moves start only lifecycles of the family `Kind` (any number of them, any parameters) -/
-def FromKinds (ms : List Move) : Prop := ∀ p, Move.spawn p ∈ ms → ∃ k : Kind, p = k.prog
-
 /-- **Every close hits a number netpoll owns at that moment.**  For all sets of numbers already open elsewhere,
 all move sequences (any number of connection / listener / dialer / poller lifecycles started at any time, every
 error branch, any interleaving of their events, the adversary opening and closing numbers in between), with no
@@ -76,31 +73,6 @@ theorem C15_none_left (envOpen : Fd → Bool) (ms : List Move) (g : G) (hk : Fro
 
 /-! ### non-vacuity: concrete runs of the model -/
 
-/-- what a run looks like from outside: (all lifecycles complete?, observable trace) -/
-def outcome (A : Br → Option Bool) (envOpen : Fd → Bool) (ms : List Move) : Option (Bool × List Obs) :=
-  (run A (G.init envOpen) ms).map fun g => (g.allDone, g.obs)
-
-/-- A listener created by `CreateListener` (net.Listen → 5, duplicate → 6), closed twice (once through
-server.Close), while another goroutine is given number 6 right after netpoll closed it and number 9 was open
-elsewhere all along; in parallel an accepted connection (7) that is closed by the poller and then by the user.
-All hypotheses of the three theorems hold and 3 closes happen. -/
-def demoMoves : List Move :=
-  [ .spawn (Kind.createListener 2).prog,
-    .step 0 0 false, .step 0 0 true, .step 0 5 true,            -- not udp, Listen ok, lfd = 5
-    .step 0 0 true, .step 0 6 true, .step 0 0 true,             -- File() ok, dup = 6, SetNonblock ok
-    .spawn (Kind.accepted 2).prog,
-    .step 1 0 true, .step 1 7 true,                             -- accept ok → 7
-    .step 1 0 false, .step 1 0 true,                            -- OnPrepare does not close, register ok
-    .step 0 0 true, .step 0 0 true, .step 0 0 true,             -- ln: another Close, via server.Close, (visit)
-    .step 0 0 true,                                             -- close(6) through the os.File
-    .envOpen 6,                                                 -- adversary reuses 6
-    .step 0 0 true,                                             -- close(5) through the wrapped listener
-    .step 1 0 true, .step 1 0 false, .step 1 0 false,           -- conn: an action, not Detach, not via server
-    .step 1 0 true, .step 1 0 true,                             -- (visit finalizer) close(7)
-    .step 1 0 true, .step 1 0 false, .step 1 0 false, .step 1 0 true,  -- second run of the callbacks: no close
-    .step 0 0 true, .step 0 0 false,                            -- ln: user's own Close again: nothing to close
-    .envClose 6, .envClose 9 ]
-
 example : outcome noLeakAssumptions (fun n => n == 9) demoMoves =
     some (true, [.npOpen 5, .npOpen 6, .npOpen 7, .npClose 6, .envOpen 6, .npClose 5, .npClose 7, .envClose 6, .envClose 9]) := by
   decide +kernel
@@ -112,17 +84,8 @@ example : FromKinds demoMoves := by
   · exact ⟨_, rfl⟩
   · exact ⟨_, rfl⟩
 
-/-! ### D15 (fixed in /repo): the old `listener.Close` -/
-
-/-- Old code: `syscall.Close(ln.fd)` then `ln.file.Close()`.  Another goroutine is given the number in between:
-the second close destroys that goroutine's descriptor. -/
-def d15Moves : List Move :=
-  [ .spawn (lifeCreateListenerOld 1),
-    .step 0 0 false, .step 0 0 true, .step 0 5 true, .step 0 0 true, .step 0 6 true, .step 0 0 true,
-    .step 0 0 true, .step 0 0 false,
-    .step 0 0 true,                                             -- close(6) via the raw number
-    .envOpen 6,
-    .step 0 0 true ]                                            -- close(6) via ln.file: not netpoll's any more
+/-! ### D15 (fixed in /repo): the old `listener.Close` (`d15Moves`: raw close, the adversary is given the
+number, then the close through `ln.file`) -/
 
 theorem D15_witness_closes_foreign_descriptor :
     (run noAssumptions (G.init fun _ => false) d15Moves).map (fun g => g.trace.head?) =
